@@ -9,6 +9,11 @@ class Check:
     def __init__(self, pid, tier, seed):
         self.pid, self.tier, self.seed = pid, tier, seed
         self.out = "%s/out/%s" % (vlib.VERIF, pid)
+        # one run per property at a time (a second run would wipe the first one's scratch directory): wait for the lock
+        import fcntl
+        os.makedirs(vlib.VERIF + "/out", exist_ok=True)
+        self._lock = open("%s/out/.lock_%s" % (vlib.VERIF, pid), "w")
+        fcntl.flock(self._lock, fcntl.LOCK_EX)
         shutil.rmtree(self.out, ignore_errors=True)
         os.makedirs(self.out, exist_ok=True)
         self.t0 = time.time()
@@ -205,7 +210,8 @@ class Check:
         for k in sorted(set(self.known_hits)):
             print("KNOWN-FINDING: " + k[len("known:"):].strip())
         wall = time.time() - self.t0
-        vlib.write_evidence(self.pid, self.tier, self.seed, level, cov, wall, len(self.violations), assumptions)
+        if not getattr(self, "no_evidence", False):      # --replay runs must not overwrite the evidence of the last real run
+            vlib.write_evidence(self.pid, self.tier, self.seed, level, cov, wall, len(self.violations), assumptions)
         # keep only violation replay files
         for f in os.listdir(self.out):
             p = os.path.join(self.out, f)
